@@ -228,3 +228,23 @@ Definition py_format (t:pyval) (args:pyval) (kw:pyval) : res :=
   match t, args, kw with
   | VStr s, VList a, VDict k => o <- py_format_go (S (List.length s)) s a k [] ;; Normal (VStr o)
   | _, _, _ => Exc TypeError end.
+
+(* ---- additions for utils/juniper_secrets.py ---- *)
+Fixpoint py_while {S} (fuel:nat) (cond: S -> ctl bool) (body: S -> ctl S) (s:S) : ctl S :=
+  match fuel with O => Exc OutOfFuel | S fuel' =>
+    match cond s with
+    | Normal true => match body s with Normal s' | Cont s' => py_while fuel' cond body s' | Brk s' => Normal s' | Ret v => Ret v | Exc e => Exc e end
+    | Normal false => Normal s
+    | Ret v => Ret v | Exc e => Exc e | Brk _ | Cont _ => Exc Unsupported
+    end end.
+Definition py_ord (v:pyval) : res := match v with VStr [c] => Normal (VInt c) | VStr _ => Exc TypeError | _ => Exc TypeError end.
+Definition py_chr (v:pyval) : res := match v with VInt z => if (0 <=? z) && (z <? 1114112) then Normal (VStr [z]) else Exc (ValueError []) | _ => Exc TypeError end.
+Definition py_enumerate (v:pyval) : res := l <- py_iter v ;; Normal (VList (map (fun p => VTuple [VInt (Z.of_nat (fst p)); snd p]) (combine (seq 0 (List.length l)) l))).
+Definition py_reversed (v:pyval) : res := match v with VList l => Normal (VList (rev l)) | VTuple l => Normal (VList (rev l)) | VStr s => Normal (VList (map (fun c => VStr [c]) (rev s))) | _ => Exc TypeError end.
+Definition py_sum (v:pyval) : res := l <- py_iter v ;;
+  fold_left (fun acc x => a <- acc ;; py_add a x) l (Normal (VInt 0)).
+Definition py_zip (a b:pyval) : res := la <- py_iter a ;; lb <- py_iter b ;; Normal (VList (map (fun p => VTuple [fst p; snd p]) (combine la lb))).
+Definition py_format_str (v:pyval) : res := match v with VStr s => Normal (VStr s) | _ => py_str v end.
+Definition py_list_append (l x:pyval) : res := match l with VList a => Normal (VList (a ++ [x])) | _ => Exc AttributeError end.
+Definition py_list_insert (l i x:pyval) : res :=
+  match l, i with VList a, VInt z => let k := clamp (List.length a) (Some z) O in Normal (VList (firstn k a ++ x :: skipn k a)) | _, _ => Exc TypeError end.
